@@ -358,6 +358,20 @@ def rebuild(w, snap):
 def check_step(rep, w, case, rnd, deep):
     """The property itself on the real code at one observation point."""
     snap = w.snapshot()
+    # an item on the fit is loaded exactly when the current source knows its type (what the restrictions see)
+    src = w.ss.source
+    for it in w.placed():
+        known = False
+        if src is not None:
+            try:
+                src.cache_handler.get_type(it._type_id)
+                known = True
+            except Exception:
+                known = False
+        if it._is_loaded != known:
+            rep.violate('item %s is %sloaded although the source %s its type' % (
+                w.ident(it), '' if it._is_loaded else 'not ', 'knows' if known else 'does not know'), case)
+            break
     live = set(snap['items'])
     full = w.validate()
     if isinstance(full, str) and full != 'pass':
